@@ -10,7 +10,7 @@ TYPE_ERRORS = {"E0277", "E0308", "E0271", "E0369", "E0599", "E0282", "E0283", "E
 
 MONO_OPS = {"TransposeRaw"}
 
-BASIS = {"Model": "re::render::Model", "World": "re::render::World", "Unit": "()", "User": "crate::UserTag"}
+BASIS = {"Model": "re::render::Model", "World": "re::render::World", "Unit": "()", "User": "crate::UserTag", "View": "re::render::View"}
 
 
 def ty(t):
@@ -30,6 +30,8 @@ def ty(t):
     if k == "MatRaw":
         return ("re::math::mat::Matrix<[[f32; %s]; %s], re::math::mat::RealToReal<%s, re::render::Model, re::render::World>>"
                 % (t[1], t[1], t[2]))
+    if k == "Alias":
+        return "re::math::mat::Mat4x4<re::render::%s>" % t[1]
     if k == "Angle":
         return "re::math::angle::Angle"
     if k == "F32":
@@ -49,6 +51,8 @@ EXPR = {
     "RotateX": "re::math::mat::rotate_x(a)", "Sin": "re::math::angle::Angle::sin(a)",
     "PolarAz": "re::math::angle::polar(1.0, a)", "MulScalar": "a * b", "DivScalar": "a / b", "Rem": "a % b",
     "TransposeRaw": "a.transpose()",
+    "AliasIs": "[a, b]", "ThenA": "a.then(&b)",
+    "CamMode": "re::render::cam::Camera::new((8, 8)).mode(a)", "CamModeTo": "re::render::cam::Camera::new((8, 8)).mode(a.to())",
 }
 # programs with a third type: two-step, or result bound to an annotated type
 EXPR3 = {
